@@ -1056,6 +1056,17 @@ func (in *Interp) selectStmt(fr *frame, x *ssa.Select) Value {
 	panic(unmodelled{"blocking select with no ready case"})
 }
 
+// goStub: with vsym.InlineGoroutines() a go statement runs the new goroutine to completion at the spawn point
+// (one legal schedule; a goroutine that would block is reported as unmodelled). Otherwise unmodelled.
 func (in *Interp) goStub(fr *frame, x *ssa.Go) bool {
-	return false
+	if !in.inlineGo {
+		return false
+	}
+	fn, args := in.prepareCall(fr, &x.Call)
+	_, p := in.callValue(fn, args, &x.Call, x, true)
+	if p != nil {
+		// a panic that kills a goroutine kills the program
+		panic(goPanicSignal{p})
+	}
+	return true
 }
